@@ -33,8 +33,39 @@ def kept_data(c, fr, metadata):
     if metadata and t == 0x06:
         return c.get(fr, "crypto")
     if metadata and t == 0xfe:
-        return c.get(fr, "supported_version")
+        return c.get(fr, "payload")          # PseudoVersionNegotiationFrame keeps the versions it was built from in .payload
     return None
+
+
+LQP, SQP, QPT = "tlexport.quic.quic_packet.LongQuicPacket", "tlexport.quic.quic_packet.ShortQuicPacket", "tlexport.quic.quic_packet.QuicPacketType"
+PVN = "tlexport.quic.quic_frame.PseudoVersionNegotiationFrame"
+
+
+def source_packet(c, frame_type, ts, isserver, pn):
+    """the packet object a frame of this type hangs on, BUILT BY THE REAL CONSTRUCTORS of quic_packet.py (the attribute set is
+    theirs, not the contract's): CRYPTO frames come in Initial packets, STREAM frames in 1-RTT packets, the pseudo frame on a
+    Version Negotiation packet - which has neither packet number nor payload"""
+    if frame_type == 0xfe:
+        r = c.new(LQP, packet_type=c.enum(QPT, "VERSION_NEG"), version=const(b"\x00\x00\x00\x00"), dcid_len=const(b"\x00"), dcid=const(b""),
+                  scid_len=const(b"\x00"), scid=const(b""), first_byte=0x80, ts=ts, isserver=isserver, supported_version=const(b"\x00\x00\x00\x01"))
+    elif frame_type == 0x06:
+        r = c.new(LQP, packet_type=c.enum(QPT, "INITIAL"), version=const(b"\x00\x00\x00\x01"), dcid_len=const(b"\x00"), dcid=const(b""),
+                  scid_len=const(b"\x00"), scid=const(b""), first_byte=0xc0, ts=ts, isserver=isserver, packet_num=pn, payload=const(b""))
+    else:
+        r = c.new(SQP, packet_type=c.enum(QPT, "RTT_1"), key_phase=0, dcid=const(b""), packet_num=pn, payload=const(b""), isserver=isserver,
+                  first_byte=0x40, ts=ts)
+    assert r.exc is None, r
+    return r.value
+
+
+def make_frame(c, t, data, sp):
+    if t == 0xfe:
+        r = c.new(PVN, data, sp)             # the real class: its attribute is .payload
+        assert r.exc is None, r
+        return r.value
+    attrs = {"frame_type": t, "src_packet": sp}
+    attrs["crypto" if t == 0x06 else "stream_data"] = data
+    return c.record("Frame", **attrs)
 
 
 def check_datagram(c, label, entry, b, isserver, payload, ts):
@@ -48,7 +79,7 @@ def check_datagram(c, label, entry, b, isserver, payload, ts):
     c.ensure(label + ".timestamp", ets == ts if c.native else c.same_object(ets, ts) or c.prove(ets == ts))
 
 
-@harness(["C02", "C06", "C07", "C13", "C08"], "quic_out.build", functions=[QOB + ".build"],
+@harness(["C02", "C06", "C07", "C13", "C08", "C03"], "quic_out.build", functions=[QOB + ".build"],
          cases=[(v6, md) for v6 in (False, True) for md in (False, True)])
 def h_qbuild(c, ipv6, metadata):
     if c.native:
@@ -63,10 +94,7 @@ def h_qbuild(c, ipv6, metadata):
         t = c.concrete(c.fresh_choice(ftype(k), [0x06, 0x08, 0x0b, 0x0f, 0xfe, 0x1c]))
         c.assume(flen(k) >= 0)
         data = BBase(E.fresh_name("data"), flen(k))
-        sp = c.record("QuicPacket", packet_num=c.bytes_fresh("pn", 1, 4), ts=fts(k), isserver=fsrv(k))
-        attrs = {"frame_type": t, "src_packet": sp}
-        attrs[{0x06: "crypto", 0xfe: "supported_version"}.get(t, "stream_data")] = data
-        return c.record("Frame", **attrs)
+        return make_frame(c, t, data, source_packet(c, t, fts(k), fsrv(k), c.bytes_fresh("pn", 1, 4)))
     traffic = SymList("decrypted_traffic", [], n, {}, project=None, inject=element)
     obj, b = make_qbuilder(c, ipv6, traffic)
     c.ensure("frame.out_is_append_only", c.appends_only(QOB + ".build", "self.out"), kind="frame")
@@ -102,7 +130,9 @@ def h_qbuild(c, ipv6, metadata):
 
     c.loop(QOB + ".build", "for frame in self.decrypted_traffic",
            invariant=lambda e: band(c.is_bool(e.isserver), True),
-           havoc={"self.out": lambda cur: [], "data": lambda cur: None, "packet": lambda cur: None}, ghost_step=ghost)
+           havoc={"self.out": lambda cur: [], "data": lambda cur: None, "packet": lambda cur: None,
+                  # the remembered packet number: any byte string, or None (Version Negotiation packets have none)
+                  "pn": lambda cur: None if c.nondet("pn_is_none") else c.bytes_fresh("pn_state", 0, 4)}, ghost_step=ghost)
     out = c.method(obj, "build", metadata)
     c.ensure("no_raise", out.exc is None, kind="raises")
     if out.exc is not None:
@@ -128,10 +158,7 @@ def h_qbuild_native(c, ipv6, metadata):
         ts = float(c.int("ts%d" % i, 0, 3))
         srv = c.bool("srv%d" % i)
         data = bytes([i]) * (c.int("len%d" % i, 0, 5))
-        sp = c.record("QuicPacket", packet_num=bytes([c.int("pn%d" % i, 0, 2)]), ts=ts, isserver=srv)
-        attrs = {"frame_type": t, "src_packet": sp}
-        attrs[{0x06: "crypto", 0xfe: "supported_version"}.get(t, "stream_data")] = data
-        frames.append(c.record("Frame", **attrs))
+        frames.append(make_frame(c, t, data, source_packet(c, t, ts, srv, bytes([c.int("pn%d" % i, 0, 2)]))))
     # frames of one input datagram share its timestamp AND its direction
     for i in range(1, n):
         if frames[i].src_packet.ts == frames[i - 1].src_packet.ts:
